@@ -231,7 +231,10 @@ pub fn generate(g: &GenCtx, seed: u64) -> Scenario {
         pct_depth: 0,
     };
     // ---- swarm configuration
-    let n_threads = 1 + weighted(&mut rng, &[15, 30, 25, 15, 8, 7]);
+    let crowd = rng.pct(3);
+    // crowd: 17-24 simulated threads, most of them alive (parked) at the same time - state that
+    // depends on how many threads exist or have existed
+    let n_threads = if crowd { rng.range(17, 24) as usize } else { 1 + weighted(&mut rng, &[15, 30, 25, 15, 8, 7]) };
     let long_haul = rng.pct(3);
     let poison_on = rng.pct(65);
     let rekey_on = rng.pct(40);
@@ -249,6 +252,12 @@ pub fn generate(g: &GenCtx, seed: u64) -> Scenario {
     sc.switch_pct = rng.range(5, 90) as u8;
     if n_threads >= 2 && rng.pct(25) {
         sc.pct_depth = rng.range(1, 4) as u8;
+    }
+    if crowd {
+        sc.mode = "crowd".into();
+        // everybody gets going before anybody finishes
+        sc.switch_pct = rng.range(60, 95) as u8;
+        sc.pct_depth = 0;
     }
     // disabled op kinds (swarm): each kind off with 25 %
     let mut kind_off: Vec<&'static str> = Vec::new();
@@ -319,7 +328,7 @@ pub fn generate(g: &GenCtx, seed: u64) -> Scenario {
     };
     // ---- threads
     for t in 0..n_threads {
-        let n_ops = match rng.below(4) {
+        let n_ops = match if crowd { 0 } else { rng.below(4) } {
             0 => rng.range(1, 4),
             1 | 2 => rng.range(3, 16),
             _ => rng.range(10, 40),
@@ -355,7 +364,7 @@ pub fn generate(g: &GenCtx, seed: u64) -> Scenario {
             let repeat = if rng.pct(6) { rng.range(2, 5) as u32 } else { 1 };
             steps.push(Step { op, repeat, rekey });
         }
-        let start = if t == 0 || !churn_on {
+        let start = if t == 0 || !churn_on || crowd {
             Start::AtBegin
         } else {
             match rng.below(3) {
@@ -365,6 +374,41 @@ pub fn generate(g: &GenCtx, seed: u64) -> Scenario {
             }
         };
         sc.threads.push(ThreadPlan { start, hash_key: rng.next_u64(), steps });
+    }
+    // contention: several threads hammer the same few near-identical calls (one family), with
+    // every yield site active and a high preemption rate - process-wide keyed state (hand-off
+    // slots, "last value" shortcuts, shared scratch) is then hit from inside other threads' calls
+    let has_sync_site = a5::verif::site::COUNT > 24;
+    if !g.families.is_empty() && rng.pct(if has_sync_site { 30 } else { 8 }) {
+        let f = &g.families[rng.below(g.families.len() as u64) as usize];
+        let members: Vec<u32> = {
+            let mut m = f.clone();
+            rng.shuffle(&mut m);
+            m.truncate(rng.range(2, 6) as usize);
+            m
+        };
+        sc.threads.clear();
+        for _ in 0..rng.range(3, 5) {
+            let mut steps = Vec::new();
+            for _ in 0..rng.range(3, 10) {
+                let op = intern(&mut sc, *rng.pick(&members));
+                steps.push(Step { op, repeat: 1, rekey: None });
+            }
+            sc.threads.push(ThreadPlan { start: Start::AtBegin, hash_key: rng.next_u64(), steps });
+        }
+        let all_sites = if a5::verif::site::COUNT >= 32 { u32::MAX } else { (1u32 << a5::verif::site::COUNT) - 1 };
+        sc.yield_mask = match rng.below(10) {
+            // in the auto-instrumented build: often only the synchronisation operations, so
+            // that whole calls of other threads fit into the window between two of them
+            0..=4 if has_sync_site => 1u32 << (a5::verif::site::COUNT - 1),
+            0..=7 => all_sites,
+            _ => 0,
+        };
+        sc.preempt_pct = rng.range(25, 60) as u8;
+        sc.switch_pct = 50;
+        sc.pct_depth = 0;
+        sc.mode = "contention".into();
+        return sc;
     }
     // medium-haul: one op of a uniformly chosen kind repeated 30..3000 times (process- or
     // thread-wide call-count thresholds, caches that fill up)
@@ -405,6 +449,59 @@ pub fn generate(g: &GenCtx, seed: u64) -> Scenario {
         let tail = sc.threads[t].steps.split_off(at);
         sc.threads[t].steps.extend(steps);
         sc.threads[t].steps.extend(tail);
+    }
+    // phased sweep: one thread issues a long run of DIFFERENT calls, in phases that each stay on
+    // one or two faces and one or two kinds of call (generation counters that wrap, caches with a
+    // capacity, epochs: state that only misbehaves after hundreds of distinct keys)
+    if rng.pct(5) {
+        let t = rng.below(sc.threads.len() as u64) as usize;
+        let mut steps: Vec<Step> = Vec::new();
+        for _ in 0..rng.range(2, 6) {
+            let faces: Vec<usize> = (0..rng.range(1, 2)).map(|_| rng.below(12) as usize).collect();
+            let k1 = rng.below(g.kinds.len() as u64) as usize;
+            let k2 = rng.below(g.kinds.len() as u64) as usize;
+            let mut cand: Vec<u32> = Vec::new();
+            for f in &faces {
+                for ix in &g.by_group[*f] {
+                    let p = &g.pool.ops[*ix as usize];
+                    let k = p.op.kind();
+                    if p.op.est_cost_us() <= 80 && (k == g.kinds[k1] || k == g.kinds[k2] || k == "lonlat_to_cell" || k == "a5cell_contains_point") {
+                        cand.push(*ix);
+                    }
+                }
+            }
+            if cand.len() < 4 {
+                continue;
+            }
+            let len = (20.0 * (40.0f64).powf(rng.unit())) as usize; // log-uniform 20..800
+            let phase_start = steps.len();
+            let mut last: Option<u32> = None;
+            'phase: while steps.len() < 4000 {
+                // each pass over the shuffled candidates uses every op once; consecutive steps
+                // always differ
+                rng.shuffle(&mut cand);
+                for ix in cand.clone() {
+                    if Some(ix) == last {
+                        continue;
+                    }
+                    let op = intern(&mut sc, ix);
+                    steps.push(Step { op, repeat: 1, rekey: None });
+                    last = Some(ix);
+                    if steps.len() - phase_start >= len || steps.len() >= 4000 {
+                        break 'phase;
+                    }
+                }
+            }
+        }
+        if !steps.is_empty() {
+            sc.mode = "phased_sweep".into();
+            let at = rng.below(sc.threads[t].steps.len() as u64 + 1) as usize;
+            let tail = sc.threads[t].steps.split_off(at);
+            sc.threads[t].steps.extend(steps);
+            sc.threads[t].steps.extend(tail);
+            // keep such long runs cheap: no yield sites
+            sc.yield_mask = 0;
+        }
     }
     if long_haul && !g.cheap.is_empty() {
         sc.mode = "long_haul".into();
